@@ -145,8 +145,10 @@ class Capacity(object):
                     self.last_test = (n.test.comparators[0], 0 if isinstance(op, ast.Lt) else 1, n)
             if isinstance(n, ast.Subscript) and norm(n.value) == p and isinstance(n.slice, ast.Slice):
                 self.slice_exprs.append(n)
-        if self.last_test is None or len(self.slice_exprs) < 2:
-            raise Undecided("capacity model: FragmentSender.build has an unmodelled shape")
+        # the if/else shape of the split loop is optional: when it is not recognised the split is decided by the length
+        # abstraction (class SplitModel) alone
+        self.build_shape = not (self.last_test is None or len(self.slice_exprs) < 2)
+        self.split = SplitModel(self)
         pre = [s for s in struct_sites(fi, self.ctx.folder) if s.kind == "pack"]
         if len(pre) != 1 or pre[0].fmt is None:
             raise Undecided("capacity model: fragment prefix pack site")
@@ -184,14 +186,16 @@ class Capacity(object):
         caps = [ev(g["cap"][0], self.bpi) + g["cap"][1] for g in self.guards]
         m["CAPS"] = caps
         m["CAP"] = min(caps)
-        m["L_last"] = ev(self.last_test[0], self.build) + self.last_test[1]        # last fragment: len < L_last
+        m["L_last"] = (ev(self.last_test[0], self.build) + self.last_test[1]) if self.build_shape else None        # last fragment: len < L_last
         m["LIMIT"] = (ev(self.limit_test[0], self.build) + self.limit_test[1]) if self.limit_test is not None else None   # largest accepted payload
         widths = set()
         for s in self.slice_exprs:
             b = s.slice.upper if s.slice.upper is not None else s.slice.lower
-            widths.add(ev(b, self.build))
+            if b is not None:
+                widths.add(ev(b, self.build))
         m["F_set"] = sorted(widths)
-        m["F"] = min(widths)
+        m["F"] = min(widths) if widths else None
+        m["ov"] = ov
         cg = []
         for g in self.guards:
             if g["count"] is None:
@@ -214,6 +218,174 @@ class Capacity(object):
     def admissible_empty(self, m):
         """how many empty messages the guards admit into one datagram (joint bound over both loops, by size and count guard)"""
         return self.accounting.count_bound(m)
+
+
+class SplitModel(object):
+    """Length abstraction of FragmentSender.build's split phase: a byte string is represented by its length (exact for the
+    control flow, which only compares lengths and slices by constants).  split(l, ov) interprets the statements that precede
+    the `for ... in enumerate(self.fragments)` loop and returns the list of fragment lengths, or ('raise', type) / Undecided."""
+
+    MAX_STEPS = 400000
+
+    def __init__(self, cap):
+        self.cap = cap
+        fi = cap.build
+        self.fi = fi
+        self.p = fi.params[1]
+        body = [st for st in fi.node.body if not (isinstance(st, ast.Expr) and isinstance(st.value, ast.Constant))]
+        self.stmts = []
+        for st in body:
+            if isinstance(st, ast.For):
+                break
+            self.stmts.append(st)
+        self._consts = {}
+
+    def const(self, e, ov):
+        key = (id(e), id(ov))
+        if key not in self._consts:
+            v = self.cap.ctx.folder.fold_with(e, self.fi.module, cls=self.fi.cls, overrides=ov)
+            if not isinstance(v, int) or isinstance(v, bool):
+                raise Undecided("split model: %s does not fold" % norm(e))
+            self._consts[key] = v
+        return self._consts[key]
+
+    def span(self, e, st, ov):
+        """[start, end) offsets (into the original payload) of the bytes expression e"""
+        s0, e0 = st["rng"]
+        if isinstance(e, ast.Name) and e.id == self.p:
+            return (s0, e0)
+        if isinstance(e, ast.Constant) and isinstance(e.value, (bytes, str)) and len(e.value) == 0:
+            return (e0, e0)
+        if isinstance(e, ast.Call) and norm(e.func) in ("bytes",) and not e.args:
+            return (e0, e0)
+        if isinstance(e, ast.Subscript) and isinstance(e.value, ast.Name) and e.value.id == self.p and isinstance(e.slice, ast.Slice) and e.slice.step is None:
+            lo = self.const(e.slice.lower, ov) if e.slice.lower is not None else 0
+            hi = self.const(e.slice.upper, ov) if e.slice.upper is not None else None
+            if lo < 0 or (hi is not None and hi < 0):
+                raise Undecided("split model: negative slice bound in %s" % norm(e))
+            l = e0 - s0
+            hi = l if hi is None else min(hi, l)
+            lo = min(lo, l)
+            if hi < lo:
+                hi = lo
+            return (s0 + lo, s0 + hi)
+        raise Undecided("split model: %s is not a slice of the payload" % norm(e))
+
+    def length(self, e, st, ov):
+        a, b_ = self.span(e, st, ov)
+        return b_ - a
+
+    def test(self, t, st, ov):
+        if isinstance(t, ast.UnaryOp) and isinstance(t.op, ast.Not):
+            return not self.test(t.operand, st, ov)
+        if isinstance(t, ast.BoolOp):
+            vals = [self.test(v, st, ov) for v in t.values]
+            return all(vals) if isinstance(t.op, ast.And) else any(vals)
+        if isinstance(t, ast.Name) and t.id == self.p:
+            return st["rng"][1] > st["rng"][0]
+        if isinstance(t, ast.Call) and norm(t.func) == "len" and norm(t.args[0]) == self.p:
+            return st["rng"][1] > st["rng"][0]
+        if isinstance(t, ast.Compare) and len(t.ops) == 1:
+            def val(x):
+                if isinstance(x, ast.Call) and norm(x.func) == "len" and len(x.args) == 1:
+                    if norm(x.args[0]) == "self.fragments":
+                        return len(st["frags"])
+                    return self.length(x.args[0], st, ov)
+                return self.const(x, ov)
+            a, b = val(t.left), val(t.comparators[0])
+            import operator
+            ops = {ast.Lt: operator.lt, ast.LtE: operator.le, ast.Gt: operator.gt, ast.GtE: operator.ge, ast.Eq: operator.eq, ast.NotEq: operator.ne}
+            if type(t.ops[0]) in ops:
+                return ops[type(t.ops[0])](a, b)
+        raise Undecided("split model: test %s is not modelled" % norm(t))
+
+    def run(self, stmts, st, ov):
+        for s in stmts:
+            st["steps"] += 1
+            if st["steps"] > self.MAX_STEPS:
+                return ("nonterminating",)
+            if isinstance(s, ast.If):
+                r = self.run(s.body if self.test(s.test, st, ov) else s.orelse, st, ov)
+                if r is not None:
+                    return r
+            elif isinstance(s, ast.While):
+                while self.test(s.test, st, ov):
+                    r = self.run(s.body, st, ov)
+                    if r is not None:
+                        if r == ("break",):
+                            break
+                        if r == ("continue",):
+                            continue
+                        return r
+                    st["steps"] += 1
+                    if st["steps"] > self.MAX_STEPS:
+                        return ("nonterminating",)
+            elif isinstance(s, ast.Raise):
+                return ("raise", norm(s.exc.func) if isinstance(s.exc, ast.Call) else norm(s.exc))
+            elif isinstance(s, ast.Break):
+                return ("break",)
+            elif isinstance(s, ast.Continue):
+                return ("continue",)
+            elif isinstance(s, ast.Pass):
+                pass
+            elif isinstance(s, ast.Assign) and len(s.targets) == 1:
+                t = norm(s.targets[0])
+                if t == self.p:
+                    st["rng"] = self.span(s.value, st, ov)
+                elif t == "self.fragments":
+                    if norm(s.value) != "[]":
+                        raise Undecided("split model: %s" % norm(s))
+                    st["frags"] = []
+                elif t.startswith("self.") and t not in ("self.fragments",):
+                    pass          # bookkeeping lists (acks, payloads, msgseqs) do not influence the split
+                else:
+                    raise Undecided("split model: assignment %s is not modelled" % norm(s)[:60])
+            elif isinstance(s, ast.Expr) and isinstance(s.value, ast.Call) and norm(s.value.func) == "self.fragments.append" and len(s.value.args) == 1:
+                st["frags"].append(self.span(s.value.args[0], st, ov))
+            elif isinstance(s, ast.Expr) and isinstance(s.value, ast.Constant):
+                pass
+            else:
+                raise Undecided("split model: statement %s is not modelled" % norm(s)[:60])
+        return None
+
+    def split(self, l, ov):
+        st = {"rng": (0, l), "frags": [], "steps": 0}
+        r = self.run(self.stmts, st, ov)
+        if r is not None:
+            return r
+        return list(st["frags"])        # [start, end) offsets of every fragment, in order
+
+    def constants(self, ov):
+        """integer constants the split phase compares / slices with (cut points of the length abstraction)"""
+        out = set()
+        for s in self.stmts:
+            for n in ast.walk(s):
+                if isinstance(n, (ast.Attribute, ast.BinOp, ast.Constant)) and not isinstance(getattr(n, "_parent", None), (ast.Attribute,)):
+                    try:
+                        v = self.cap.ctx.folder.fold_with(n, self.fi.module, cls=self.fi.cls, overrides=ov)
+                    except Exception:
+                        continue
+                    if isinstance(v, int) and not isinstance(v, bool) and 0 < v < 10 ** 6:
+                        out.add(v)
+        return sorted(out)
+
+    def lengths_to_probe(self, m, exhaustive):
+        """payload lengths around every boundary of the split (all lengths of a few periods when exhaustive)"""
+        T = m["T_frag"]
+        cs = self.constants(m["ov"])
+        ls = set(range(T + 1, T + 4))
+        big = max(cs) if cs else 1024
+        if exhaustive:
+            ls |= set(range(T + 1, T + 1 + 4 * big + 8))
+        for c in cs:
+            for k in range(1, 5):
+                for d in range(-2, 3):
+                    ls.add(k * c + d)
+            for c2 in cs:
+                for d in range(-2, 3):
+                    ls.add(c + c2 + d)
+                    ls.add(2 * c + c2 + d)
+        return sorted(x for x in ls if x > T)
 
 
 class Accounting(object):
@@ -489,6 +661,59 @@ def _block_of(stmt):
         if isinstance(blk, list) and any(s is stmt for s in blk):
             return blk
     raise Undecided("cannot locate block of statement")
+
+
+PROBE_MTUS = sorted({512, 513, 514, 576, 768, 1000, 1024, 1094, 1095, 1096, 1097, 1098, 1099, 1100, 1280, 1400, 1499, 1500} | set(range(512, 1501, 97)))
+EXHAUSTIVE_MTUS = (512, 1096, 1097, 1500)
+
+
+def split_sweep(ctx):
+    """run the length abstraction of the split over the probe lengths; returns (stats, findings by kind).
+    quick: boundary lengths for PROBE_MTUS; thorough: boundary lengths for every MTU and every length of four periods for
+    EXHAUSTIVE_MTUS."""
+    if getattr(ctx, "_split_sweep", None) is not None:
+        return ctx._split_sweep
+    cap = capacity(ctx)
+    sp = cap.split
+    mtus = list(MTUS) if ctx.tier == "thorough" else PROBE_MTUS
+    finds = {"sum": [], "empty": [], "too_big": [], "nonterminating": [], "raises": [], "count": []}
+    n = 0
+    for mtu in mtus:
+        m = cap.at(mtu)
+        ls = sp.lengths_to_probe(m, ctx.tier == "thorough" and mtu in EXHAUSTIVE_MTUS)
+        for l in ls:
+            n += 1
+            r = sp.split(l, m["ov"])
+            if isinstance(r, tuple):
+                if r[0] == "nonterminating":
+                    finds["nonterminating"].append((mtu, l, None))
+                elif r[0] == "raise" and (m["LIMIT"] is None or l <= m["LIMIT"]):
+                    finds["raises"].append((mtu, l, r[1]))
+                continue
+            # the fragments, in order, must tile [0, l) exactly: contiguous, starting at 0, ending at l
+            pos = 0
+            tiled = True
+            for (a_, b_) in r:
+                if a_ != pos:
+                    tiled = False
+                    break
+                pos = b_
+            if not tiled or pos != l:
+                finds["sum"].append((mtu, l, r[:5]))
+            lens = [b_ - a_ for (a_, b_) in r]
+            if any(x == 0 for x in lens):
+                finds["empty"].append((mtu, l, lens[-4:]))
+            r = lens
+            for i in range(len(cap.guards)):
+                big = [x for x in r if cap.size_alone(m, i, x + cap.FRAG_OVERHEAD) > m["CAPS"][i]]
+                if big:
+                    finds["too_big"].append((mtu, l, {"fragment": big[0], "accounted_size_alone": cap.size_alone(m, i, big[0] + cap.FRAG_OVERHEAD), "CAP": m["CAPS"][i]}))
+                    break
+            if len(r) > cap.MAX_FRAGMENTS:
+                finds["count"].append((mtu, l, len(r)))
+    ctx.analysed["cells"] += n
+    ctx._split_sweep = ({"mtus": len(mtus), "lengths": n}, finds)
+    return ctx._split_sweep
 
 
 _CAP = {}
